@@ -121,6 +121,13 @@ let rec obs_sx = function
   | L [A "remove"; k] -> ORemove (str_sx k)
   | L [A "hasfield"; k] -> OHasField (str_sx k)
   | A "toarray" -> OToArray
+  | A "fromarray" -> OFromArray
+  | A "pathead" -> OPatHead | A "pattail" -> OPatTail
+  | L [A "patfield"; k] -> OPatField (str_sx k)
+  | L [A "patrest"; k] -> OPatRest (str_sx k)
+  | L [A "recfilter"; L [A "valgt"; k]] -> ORecFilter (P2ValGt (z_of_int (int_sx k)))
+  | L [A "recfilter"; A "true"] -> ORecFilter P2True
+  | L [A "recfilter"; L [A "nameeq"; s]] -> ORecFilter (P2NameEq (str_sx s))
   | L [A "merger"; l] -> OMergeR (lit_sx l)
   | L [A "mergel"; l] -> OMergeL (lit_sx l)
   | L [A "call"; a] -> OCall (atom_sx a)
@@ -153,7 +160,7 @@ let show_err = function
   | EBlame -> "Blame+" | EBlameNeg -> "Blame-" | EFail -> "Fail" | EOther -> "OtherErr"
   | ETypeErr -> "TypeErr" | EFieldMissing -> "FieldMissing" | ENonMergeable -> "NonMergeable"
   | ENotExportable -> "NotExportable" | ESerialize -> "Serialization" | EIncomparable -> "Incomparable"
-  | ENotAFunc -> "NotAFunc" | EFuel -> "ModelFuel" | EProbe -> "Probe" | EUnmodelled -> "Unmodelled"
+  | ENotAFunc -> "NotAFunc" | ENonExhaustive -> "NonExhaustive" | EFuel -> "ModelFuel" | EProbe -> "Probe" | EUnmodelled -> "Unmodelled"
 
 let show_res = function Ok t -> "OK " ^ show_tree t | Err e -> "ERR " ^ show_err e
 
